@@ -137,7 +137,7 @@ class Check:
 
     # ---- running the engine on a package of /repo (or a scratch module) with overlay harness files ----
     def run_pkg(self, moddir, pkg_pattern, pkgdir, pkgname, harness_files, regex, params=None, workers=16, wall=None,
-                max_models=20, extra_flags=(), label=None, feas_ms=None, oblig_ms=None, expect_covers=True, gen=None, max_paths=None, soft_trunc="record", extra_overlays=None, soft_problem_rx=None):
+                max_models=20, extra_flags=(), label=None, feas_ms=None, oblig_ms=None, expect_covers=True, gen=None, max_paths=None, soft_trunc="record", extra_overlays=None, soft_problem_rx=None, engine_only=False):
         gose = ensure_gose()
         params = params or {}
         rts = rt_files(pkgname, self.scratch)
@@ -179,7 +179,8 @@ class Check:
                 self.not_covered.append({"harness": regex, "schema": label or pkg_pattern, "reason": "no applicable type in this schema (no harness generated)"})
             else:
                 self.problems.append("no harness matched %s in %s" % (regex, pkg_pattern))
-        ctx = dict(moddir=moddir, pkg_pattern=pkg_pattern, pkgdir=pkgdir, pkgname=pkgname, test_overlays=test_overlays, params=params, label=label or pkg_pattern, gen=gen)
+        ctx = dict(moddir=moddir, pkg_pattern=pkg_pattern, pkgdir=pkgdir, pkgname=pkgname, test_overlays=test_overlays, params=params, label=label or pkg_pattern, gen=gen,
+                   engine_only=engine_only, extra_flags=list(extra_flags), engine_overlays=dict(overlays))
         rep["_truncated"] = []
         for h in rep["Harnesses"]:
             h["_ctx"] = ctx
@@ -263,6 +264,18 @@ class Check:
                 json.dump(case_json(h["Name"], models[i], ctx["params"]), open(os.path.join(casedir, name + ".case.json"), "w"))
                 expect[name] = ("model", h, i)
             per_key = {}
+            if ctx.get("engine_only"):
+                # schedule-dependent harness: a native run cannot be forced onto the schedule of the counterexample; the violation is
+                # reported from the engine, and its replay script re-runs the engine on the current tree
+                for v in h.get("Violations") or []:
+                    key = "%s/%s/%s/%s" % (ctx["label"], h["Name"], v["kind"], v["id"])
+                    k = self.known.match(self.prop, key)
+                    if k:
+                        if k not in self.known_hits:
+                            self.known_hits.append(k)
+                        continue
+                    self._write_replay(ctx, h, v, key, {"engine_only": True})
+                continue
             for j, v in enumerate(h.get("Violations") or []):
                 k = (v.get("kind"), v.get("id"), (v.get("site") or "").split(":")[0])
                 per_key[k] = per_key.get(k, 0) + 1
@@ -370,6 +383,20 @@ class Check:
 D="$(cd "$(dirname "$0")" && pwd)"
 exec %s/check --replay-gen "$D"
 """ % VERIF)
+        elif ctx.get("engine_only"):
+            repl = {}
+            for virt, real in ctx["engine_overlays"].items():
+                dst = os.path.join(d, "files", os.path.basename(real))
+                os.makedirs(os.path.dirname(dst), exist_ok=True)
+                shutil.copy(real, dst)
+                repl[virt] = dst
+            json.dump({"property": self.prop, "key": key, "violation": v, "engine_only": True, "moddir": ctx["moddir"], "pkg": ctx["pkg_pattern"], "harness": h["Name"],
+                       "params": ctx["params"], "extra_flags": ctx["extra_flags"], "overlays": repl}, open(os.path.join(d, "cex.json"), "w"), indent=1)
+            open(os.path.join(d, "replay.sh"), "w").write("""#!/bin/sh
+# schedule-dependent counterexample: re-runs the symbolic engine on this harness against the current tree; exits 1 if the same obligation is violated again
+D="$(cd "$(dirname "$0")" && pwd)"
+exec %s/check --replay-engine "$D"
+""" % VERIF)
         else:
             repl = {}
             for virt, real in ctx["test_overlays"].items():
@@ -458,3 +485,28 @@ echo "not reproduced"; exit 0
             return 2
         print("OK property=%s paths=%d decisions=%d validated_natively=%d wall=%.1fs" % (self.prop, states, trans, self.validated, wall))
         return 0
+
+
+def replay_engine(d):
+    """re-runs the engine on the harness of an engine-only (schedule-dependent) counterexample against the current tree; 1 if the same obligation is violated"""
+    meta = json.load(open(os.path.join(d, "cex.json")))
+    gose = ensure_gose()
+    out = os.path.join(d, "replay_result.json")
+    cmd = [gose, "run", "-dir", meta["moddir"], "-pkg", meta["pkg"], "-tags", "verif", "-harness", "^%s$" % meta["harness"], "-workers", "16", "-models", "0", "-out", out, "-wall", "600s", "-stop-on-violation"]
+    for k, v in meta["overlays"].items():
+        cmd += ["-overlay", "%s=%s" % (k, v)]
+    for k, v in meta["params"].items():
+        cmd += ["-param", "%s=%d" % (k, v)]
+    cmd += list(meta.get("extra_flags") or [])
+    rc, txt = sh(cmd, cwd=VERIF, timeout=1800)
+    print(txt[-1500:])
+    if rc != 0 or not os.path.exists(out):
+        return 2
+    rep = json.load(open(out))
+    for h in rep.get("Harnesses") or []:
+        for v in h.get("Violations") or []:
+            if v.get("id") == meta["violation"]["id"]:
+                print("REPRODUCED (engine): %s %s" % (v["kind"], v["id"]))
+                return 1
+    print("not reproduced")
+    return 0
